@@ -218,8 +218,10 @@ def _sym_expr_access_type(
             for inst in decoder.get_instructions(block)
             if inst.address <= expr_addr < (inst.address + inst.size)
         )
-        if instruction.group(capstone.CS_GRP_JUMP) or instruction.group(
-            capstone.CS_GRP_CALL
+        if (
+            instruction.group(capstone.CS_GRP_JUMP)
+            or instruction.group(capstone.CS_GRP_CALL)
+            or instruction.group(capstone.CS_GRP_BRANCH_RELATIVE)
         ):
             return _SymExprAttributeRule.AccessType.CONTROL_FLOW
         else:
